@@ -7,18 +7,18 @@ from .rules.refusals import rule_assert, rule_kwsig, rule_raise, rule_regkey
 from .rules.truthy import rule_truthy
 from .rules.purity import rule_pure, rule_args, rule_global, rule_memo
 from .rules.token import rule_token
-from .rules.graph import rule_keys, rule_order, rule_cover, rule_axiskey, rule_contig, rule_loopstore
+from .rules.graph import rule_keys, rule_order, rule_cover, rule_axiskey, rule_contig, rule_loopstore, rule_bitmask
 from .rules import misc as M
 from .rules.lazyrule import rule_lazy
 from .rules.pickle_nondet import rule_pickle, rule_nondet, rule_fillflow
 from .rules import pairs as PR
 from .rules import codes as CD
 from .rules import members as MB
-from .rules.wiring import rule_passthrough_sort, rule_passthrough_engine, rule_counter, rule_globalidx, rule_sorted, rule_infresolve, rule_uniquefrom, rule_emptyidx, rule_fillnone
+from .rules.wiring import rule_passthrough_sort, rule_passthrough_engine, rule_counter, rule_globalidx, rule_sorted, rule_infresolve, rule_uniquefrom, rule_emptyidx, rule_fillnone, rule_aligned, rule_autorefuse, rule_blocklabels
 
 PROPERTIES = {
     "C01": {
-        "rules": [rule_dispatch, rule_stable, rule_passthrough_engine, M.rule_varshift, PR.rule_pairs_perm, PR.rule_layout, CD.rule_missingcode],
+        "rules": [rule_dispatch, rule_stable, rule_passthrough_engine, M.rule_varshift, PR.rule_pairs_perm, PR.rule_layout, CD.rule_missingcode, PR.rule_unpermute],
         "thorough": [selftest],
         "technique": "engine-dispatch model + sibling cross-check of kernel signatures (custom AST checker)",
         "level_text": "Static, all-paths: for every kernel name a blueprint can ask for and every engine, the implementation the dispatch "
@@ -48,14 +48,14 @@ PROPERTIES = {
         "explanation": "R-LAZY",
     },
     "C13": {
-        "rules": [rule_pure, rule_pickle, rule_nondet],
+        "rules": [rule_pure, rule_pickle, rule_nondet, rule_args],
         "thorough": [selftest],
         "technique": "interprocedural origins (may-alias) dataflow over the CFG with function summaries; derived task roots",
         "level_text": "Static, all-paths: no function reachable from a graph-embedded callable writes through a parameter, a view or "
                       "alias of one, or an object inside one (subscript/attribute stores, augmented assignment, out=, in-place "
                       "methods, np.put & co), judged at the task roots through function summaries; no task-reachable identity test against a sentinel "
                       "that pickles by value and nothing unpicklable is embedded; no nondeterminism source in task-reachable code.",
-        "explanation": "R-PURE, R-PICKLE, R-NONDET",
+        "explanation": "R-PURE, R-PICKLE, R-NONDET, R-ARGS (a blueprint embedded in tasks is a private deep copy: later calls cannot change what an already built graph computes)",
     },
     "C14": {
         "rules": [rule_args, rule_global, rule_memo, rule_token],
@@ -67,7 +67,7 @@ PROPERTIES = {
         "explanation": "R-ARGS, R-GLOBAL, R-MEMO, R-TOKEN",
     },
     "C19": {
-        "rules": [rule_raise, rule_defassign, rule_regkey, rule_kwsig, rule_assert, CD.rule_codewidth, rule_loopstore, MB.rule_names, MB.rule_attr, MB.rule_dictkeys, rule_uniquefrom, rule_emptyidx, rule_fillnone],
+        "rules": [rule_raise, rule_defassign, rule_regkey, rule_kwsig, rule_assert, CD.rule_codewidth, rule_loopstore, MB.rule_names, MB.rule_attr, MB.rule_dictkeys, rule_uniquefrom, rule_emptyidx, rule_fillnone, rule_aligned, rule_autorefuse],
         "thorough": [selftest],
         "technique": "CFG definite-assignment with guard correlation; call-graph reachability of raises; keyword/signature agreement of "
                      "every resolved call and partial; assert triage table",
@@ -79,14 +79,14 @@ PROPERTIES = {
         "explanation": "R-RAISE, R-DEFASSIGN, R-REGKEY, R-KWSIG, R-ASSERT, R-CODEWIDTH (sentinel stores cannot overflow a narrow code dtype), R-LOOPSTORE (the planner cannot lose a cohort and trip its own assert)",
     },
     "C02": {
-        "rules": [M.rule_plan, rule_algebra, rule_cover, PR.rule_pairs_dummyaxis],
+        "rules": [M.rule_plan, rule_algebra, rule_cover, PR.rule_pairs_dummyaxis, rule_token, PR.rule_codelabels],
         "thorough": [selftest],
         "technique": "CFG must-pass-through (finalizer), resolved embeddings of combine/aggregate callables, access-path agreement",
         "level_text": "Static, all-paths: every plan funnels into the one finalizer on every path, only the two sibling combine algorithms "
                       "are embedded and both draw their operator from the same blueprint slot family, intermediates are re-indexed with the "
                       "blueprint's intermediate fills, the cohort re-indexing is tied to the combine kind by the same boolean, and a cohort's "
                       "block set covers every member label. Equality of chunked and eager values is not decided.",
-        "explanation": "R-PLAN, R-ALGEBRA, R-COVER",
+        "explanation": "R-PLAN (incl. every block passes the re-indexer), R-ALGEBRA, R-COVER, R-PAIRS[dummy-axis], R-TOKEN (a chunked result computed together with another one is not overwritten by it)",
     },
     "C06": {
         "rules": [rule_algebra, rule_order, rule_stable, rule_keys, rule_globalidx, rule_contig],
@@ -98,7 +98,7 @@ PROPERTIES = {
         "explanation": "R-ALGEBRA (arg rows), R-ORDER, R-STABLE, R-KEYS, R-GLOBALIDX, R-CONTIG (tree nodes combine adjacent blocks in order: ties and first/last resolve positionally)",
     },
     "C07": {
-        "rules": [M.rule_sentinel_ravel, PR.rule_pairs_groupers, CD.rule_codewidth, CD.rule_identitycodes, CD.rule_labelvalue, CD.rule_closedside, CD.rule_missingcode, PR.rule_codedep],
+        "rules": [M.rule_sentinel_ravel, PR.rule_pairs_groupers, CD.rule_codewidth, CD.rule_identitycodes, CD.rule_labelvalue, CD.rule_closedside, CD.rule_missingcode, PR.rule_codedep, PR.rule_codelabels],
         "thorough": [selftest],
         "technique": "CFG must-pass-through of a masked sentinel restore",
         "level_text": "Static, all-paths: after the per-grouper codes are combined arithmetically, every path to return restores the "
@@ -115,15 +115,15 @@ PROPERTIES = {
         "explanation": "R-SENTINEL on offset_labels, R-COPERMUTE, R-PAIRS, R-CODEWIDTH (per-slice offsets are added to intp codes)",
     },
     "C10": {
-        "rules": [M.rule_scantable, rule_stable, M.rule_promote],
+        "rules": [M.rule_scantable, rule_stable, M.rule_promote, rule_pure],
         "thorough": [selftest],
         "technique": "registry constant-evaluation + scan table; stable-sort sites",
         "level_text": "Static: the three scan blueprints are consistent (operator identity, carried reduction, in-block scan), bfill is the "
                       "mirror image of ffill, and the group sort feeding ffill is stable. Scan values across chunkings are not decided.",
-        "explanation": "R-SCANTABLE, R-STABLE, R-PROMOTE",
+        "explanation": "R-SCANTABLE, R-STABLE, R-PROMOTE, R-PURE (the scan combine is a node of a parallel-prefix tree: it may not write into an operand another node reads)",
     },
     "C11": {
-        "rules": [M.rule_dtypetable, M.rule_finalcast, M.rule_promote, PR.rule_pairs_outinds, M.rule_reindexdtype, M.rule_subsumed],
+        "rules": [M.rule_dtypetable, M.rule_finalcast, M.rule_promote, PR.rule_pairs_outinds, M.rule_reindexdtype, M.rule_subsumed, M.rule_accdtype, M.rule_finaldeps],
         "thorough": [selftest],
         "technique": "dtype convention table; CFG must-pass-through of the final cast; access-path agreement of announced meta",
         "level_text": "Static, all-paths: blueprint dtype declarations follow the NumPy convention table, every path of the finalizer casts "
@@ -133,7 +133,7 @@ PROPERTIES = {
         "explanation": "R-DTYPETABLE, R-FINALCAST, R-PROMOTE, R-PAIRS[outinds], R-REINDEXDTYPE",
     },
     "C16": {
-        "rules": [M.rule_coindex, rule_passthrough_sort, rule_sorted],
+        "rules": [M.rule_coindex, rule_passthrough_sort, rule_sorted, rule_token, rule_blocklabels],
         "thorough": [selftest],
         "technique": "syntactic co-indexing of values and labels in one basic block",
         "level_text": "Static: whenever groupby_reduce re-indexes the result along the group axis it re-indexes the labels with the same "
@@ -142,7 +142,7 @@ PROPERTIES = {
         "explanation": "R-COINDEX, R-PASSTHROUGH[sort], R-SORTED",
     },
     "C18": {
-        "rules": [M.rule_blockonly],
+        "rules": [M.rule_blockonly, PR.rule_unpermute],
         "thorough": [selftest],
         "technique": "registry check; CFG dominance of a refusal over graph construction; three-site agreement",
         "level_text": "Static, all-paths: order statistics declare no block/combine decomposition, a refusal dominates graph construction "
@@ -151,7 +151,7 @@ PROPERTIES = {
         "explanation": "R-BLOCKONLY",
     },
     "C20": {
-        "rules": [M.rule_collide, M.rule_castorder, rule_infresolve, M.rule_varshift],
+        "rules": [M.rule_collide, M.rule_castorder, rule_infresolve, M.rule_varshift, M.rule_accdtype],
         "thorough": [selftest],
         "technique": "sentinel-collision pattern on NaN substitutes; dtype plumbing of the engine wrappers; widening table",
         "level_text": "Static: no all-NaN detector compares a result with its own NaN substitute unless conjoined with a valid-member "
@@ -172,7 +172,7 @@ PROPERTIES = {
         "explanation": "R-KEYS, R-ORDER, R-AXISKEY, R-GLOBAL, R-ALGEBRA, R-CONTIG, R-PURE (no task writes into a value another task may read: the order of unordered tasks cannot matter)",
     },
     "C09": {
-        "rules": [rule_cover, rule_keys, rule_axiskey, rule_token, rule_loopstore],
+        "rules": [rule_cover, rule_keys, rule_axiskey, rule_token, rule_loopstore, rule_bitmask],
         "thorough": [selftest],
         "technique": "def-use closure checks on the planner's cohort->blocks map and on cohort sub-tree keys; content-named subset layers",
         "level_text": "Static, all-paths: the block set stored for a merged cohort is computed from the blocks of every member label (and "
